@@ -82,7 +82,7 @@ def tree_roundtrips(text: str):
     return viol, count_entries(org)
 
 
-SYN_VALUES = ['', 'a', '0', '\n', ' ', '"', "'", '\\', 'é', 'a"b\\n', 'None', 'x\ny']
+SYN_VALUES = ['', 'a', '0', '\n', ' ', '"', "'", '\\', 'é', 'a"b\\n', 'None', 'x\ny', 'a\r\nb', '\r', '\t', '\x0c']
 
 
 def synthetic_trees(max_entries: int):
@@ -256,6 +256,9 @@ def run(ctx):
     sents = corpus.sentence_corpus(ctx.quick)
     reals = corpus.real_modules()
     texts = sents + corpus.block_programs() + [src for _, _, src in reals]
+    # the same programs saved with CRLF line ends (multi-line string tokens then hold \r\n)
+    crlf_base = corpus.block_programs() + ['def f() -> str:\n\t"""doc\n\tmore\n\t"""\n\ts = """a\nb"""\n\treturn s\n', 'class C:\n\t"""one\n\ttwo"""\n\tx: int = 1\n']
+    texts += [t.replace('\n', '\r\n') for t in crlf_base]
     ctx.log(f'{len(sents)} sentences, {len(reals)} real modules')
     results = pool.pmap(tree_worker, pool.chunked(texts, 300), workers=ctx.workers, init=_init_worker, rotate=ctx.seed)
     flat = [r for res in results for r in res]
